@@ -5,7 +5,7 @@ src, sid, status, note = sys.argv[1:5]
 dst = os.path.join("/verif/seeded", sid)
 os.makedirs(dst, exist_ok=True)
 for f in os.listdir(src):
-    if f == "patch.diff" or f.endswith(".go"):
+    if f in ("patch.diff", "patch.rebased.diff") or f.endswith(".go"):
         shutil.copy(os.path.join(src, f), os.path.join(dst, f + (".txt" if f.endswith(".go") else "")))
 m = json.load(open(os.path.join(src, "meta.json")))
 meta = {
